@@ -750,3 +750,77 @@ def two_crate_project():
     app = {"name": "app", "edition": "2024_07", "deps": ["vlib"],
            "files": {"lib.cairo": make_dependent(good, "two_crates")}}
     return {"name": "two_crates", "crates": [app, VLIB], "main": ["app", "vlib"]}
+
+
+CYCLES_SRC = """// call cycles: the assembly order and every SCC-level analysis (implicits, gas feedback set, may-panic)
+// must not depend on which member of a cycle the database met first
+fn b_ping(n: felt252) -> felt252 {
+    if n == 0 {
+        0
+    } else {
+        z_pong(n - 1) + 1
+    }
+}
+fn z_pong(n: felt252) -> felt252 {
+    if n == 0 {
+        1
+    } else {
+        b_ping(n - 1) + 2
+    }
+}
+#[inline(never)]
+fn x_ping2(n: u32, a: felt252) -> felt252 {
+    if n == 0 {
+        core::pedersen::pedersen(a, 1)
+    } else if n == 1 {
+        x_ping2(0, a)
+    } else {
+        m_pong2(n - 1, a)
+    }
+}
+#[inline(never)]
+fn m_pong2(n: u32, a: felt252) -> felt252 {
+    if n == 0 {
+        let w: u64 = 12;
+        (w & 10).into()
+    } else if n == 1 {
+        m_pong2(0, a)
+    } else {
+        x_ping2(n - 1, a + 1)
+    }
+}
+fn d_three_a(n: u32) -> u32 {
+    if n == 0 {
+        0
+    } else {
+        y_three_b(n - 1)
+    }
+}
+fn y_three_b(n: u32) -> u32 {
+    if n < 2 {
+        1
+    } else {
+        e_three_c(n - 2) + d_three_a(n - 1)
+    }
+}
+fn e_three_c(n: u32) -> u32 {
+    if n == 0 {
+        2
+    } else {
+        d_three_a(n - 1)
+    }
+}
+#[implicit_precedence(core::RangeCheck)]
+fn a_main(n: u32) -> felt252 {
+    b_ping(3) + x_ping2(n, 5) + d_three_a(n).into()
+}
+"""
+
+
+def cycles_project():
+    """C12: one crate whose functions form call cycles (plain 2-cycle, 2-cycle with self loops and different
+    implicits per member under a partial implicit precedence, 3-cycle).  Sorted by path the last function
+    (z_pong) and the middle one (e_three_c / m_pong2) - the targets of the prefix queries - are members that the
+    normal assembly order does not meet first."""
+    crate = {"name": "cyc", "edition": "2024_07", "deps": [], "files": {"lib.cairo": CYCLES_SRC}}
+    return {"name": "cycles", "crates": [crate], "main": ["cyc"]}
